@@ -95,7 +95,7 @@ def check_cases(ctx, cases):
         rows = coq_rows(cs['rows'], cs['reference'])
         ncomplete = sum(1 for r in cs['rows'] if r[0] is not None and r[1] is not None)
         rng = 'Some (rd_range us)' if ncomplete <= 8 else 'None'
-        twin = '([], [])'
+        twin = '(@nil (list Z), @nil (list Z))'
         if side and 'error' not in im:
             def call(name):
                 args = []
